@@ -140,5 +140,17 @@ CLAIMS["C11"] = dict(
     note=_HN + " kill -9 = snapshot of the scratch directory and effect log at the kill point, Python stack unwound, snapshot restored. The schedule of node events is fixed (first enabled event): the quantifier of this property is the fault position, schedules are covered by C01-C05. Torn writes inside one write() are outside the claim.",
     technique="bounded symbolic execution with z3 (jsym): the fault kind, position, lock-library behaviour and later attempts are solver variables, exhaustive exploration")
 
+CLAIMS["C03"]["text"] += (" H-submit/user-race: a user's try-submit-jobs started at any scheduler step while batches are running, pre-empted after every lock "
+                          "release and before squeue (5.8 k histories); H-submit/states: running batches reported as SUSPENDED/CONFIGURING; H-submit/procs: CPU-count limit.")
+CLAIMS["C05"]["text"] += " H-submit/user-race and H-submit/double-recovery (the recovery typed twice on one login host, overlapping); the step clause is also asserted after every recovery round of the histories."
+CLAIMS["C07"]["text"] += " K-walltime: SubmitterParams.get_wall_time/_to_timedelta on H:MM:SS strings with 1-3 digit hours (padded or not): parsed duration = H*3600+M*60+S, and check_job_runtimes rejects exactly the estimates above it."
+CLAIMS["C17"]["text"] += " K-walltime (see C07). K-roundtrip compares every SubmitterParams field of every group (explicit nulls, explicit values) and K-config includes groups whose monitor interval is below the poll interval."
+CLAIMS["C19"]["text"] += (" H-launch: whole submissions (HPC and local) with append_* flags and exit codes {0,3,255} chosen by the solver: argv/env/stdio at Popen and the recorded exit code and HPC job id "
+                          "checked through the whole chain config file -> batch config -> JobRunner._generate_jobs -> AsyncCliCommand -> results file.")
+CLAIMS["C16"]["text"] += " H-hooks/G2: two submission groups (JADE_SUBMISSION_GROUP must be the batch's group)."
+CLAIMS["C14"]["text"] += " H-cancel/time: the same with time-based batching; scancel of an id that is no longer active fails (purged id), as on a real cluster."
+CLAIMS["C10"]["text"] += (" H-role: each CLI command that can act as submitter (try-submit-jobs, cancel-jobs, resubmit-jobs, show-status) run while another process on the same or another host holds the role, "
+                          "on a complete or incomplete submission: role, state and HPC untouched, no lock left, the holder's next write accepted. H-submit/double-recovery: two overlapping try-submit-jobs on one host.")
+
 _TODO = "check not built yet in this session (planned in DESIGN.md section 6); not claimed until it exists"
 NOT_APPLICABLE = {}
